@@ -64,7 +64,7 @@ Catalogue == {
   Plain(<<"put", "$z = min($x, $y)">>), Plain(<<"put", "$z = $x * 1.5">>), Plain(<<"put", "$z = $x // 2">>),
   Plain(<<"put", "$z = hexfmt($x)">>), Plain(<<"put", "$z = int($x)">>), Plain(<<"put", "$z = float($x)">>),
   Plain(<<"put", "$z = string($x)">>), Plain(<<"put", "$z = sec2gmt($x)">>), Plain(<<"put", "$z = $x =~ \"^0x\"">>),
-  Plain(<<"put", "$z = splitax($x, \".\")[1]">>), Plain(<<"put", "$z = json_encode($x)">>), Plain(<<"put", "$z = bitcount($x)">>),
+  Plain(<<"put", "$z = splitax($x, \".\")[1]">>), Plain(<<"put", "$z = json_stringify($x)">>), Plain(<<"put", "$z = bitcount($x)">>),
   Plain(<<"put", "m = $*; $z = m[\"x\"] . \"\"">>), Plain(<<"put", "@s[$x] = $y; $z = 1">>), Plain(<<"put", "@sum += $x; $z = @sum">>),
   Plain(<<"put", "func f(a) { return a + 1 } $z = f($x)">>), Plain(<<"put", "if ($x > 0) {$z = 1} else {$z = 2}">>),
   Plain(<<"put", "for (k, v in $*) { if (k == \"x\") {$z = v . \"\"} }">>), Plain(<<"put", "$z = sort_by_key($*)[\"x\"] . \"\"">>),
